@@ -34,6 +34,42 @@ def _call(t):
     return t if isinstance(t, D.Call) else None
 
 
+_DEP_CACHE = {}
+
+
+def attribute_dependence(repo, f):
+    """names X such that the document ``f`` prints for a value, or the choice between its paths, depends on ``value.X`` (or on
+    ``value.X(...)``): read off the interpreted paths of the printer, so it does not matter whether the attribute is read in the
+    printer itself, in a helper, through getattr with a name from a table ...  None when the printer cannot be interpreted."""
+    import re
+    key = (id(repo), f.key)
+    if key in _DEP_CACHE and _DEP_CACHE[key][0] is repo:
+        return _DEP_CACHE[key][1]
+
+    def p_classattr(it, a, k, nd):
+        return DocV(D.Lit('classattr(%s,%s)' % (prov(a[0]), prov(a[1])), role='identifier'))
+    it = S.interp(repo, 'printer', {'pretty_str': S.p_pretty_str_as_sub, 'classattr': p_classattr}, max_paths=6000)
+    v = f.params[0]
+    out = None
+    try:
+        prs = it.explore(f, [ValueV(v, TypeV('T'), None), CtxV()], {})
+        text = []
+        for pr in prs:
+            text.append(pr.fact_text())
+            if pr.raised is None:
+                try:
+                    text.append(D.show(it.as_term(pr.value)))
+                except Exception:
+                    text.append(repr(pr.value))
+        out = set(re.findall(r'(?<![\w.])(?:abs\()?%s\)?\.(\w+)' % re.escape(v), ' '.join(text)))
+    except Exception:
+        out = None
+    if len(_DEP_CACHE) > 200:
+        _DEP_CACHE.clear()
+    _DEP_CACHE[key] = (repo, out)
+    return out
+
+
 def run_shape(repo, rep):
     m = repo.module('pretty_stdlib')
     n = 0
